@@ -10,6 +10,7 @@ import (
 	"sort"
 	"strings"
 	"sync"
+	"sync/atomic"
 	"testing"
 	"time"
 
@@ -21,6 +22,7 @@ import (
 	databasev1 "github.com/apache/skywalking-banyandb/api/proto/banyandb/database/v1"
 	modelv1 "github.com/apache/skywalking-banyandb/api/proto/banyandb/model/v1"
 	tracev1 "github.com/apache/skywalking-banyandb/api/proto/banyandb/trace/v1"
+	"github.com/apache/skywalking-banyandb/banyand/internal/sidx"
 	"github.com/apache/skywalking-banyandb/banyand/internal/storage"
 	"github.com/apache/skywalking-banyandb/banyand/protector"
 	"github.com/apache/skywalking-banyandb/pkg/bus"
@@ -148,6 +150,49 @@ func (f *teFakeRepo) LoadGroup(name string) (resourceSchema.Group, bool) {
 	return teFakeGroup{f.db}, true
 }
 
+// teParkSIDX wraps a table's secondary index: while the environment's gate is armed, an index query parks until the gate is
+// released (an ordered query that is in flight while the introducer publishes a merge).
+type teParkSIDX struct {
+	sidx.SIDX
+	env *teEnv
+}
+
+type teGate struct {
+	entered chan struct{}
+	release chan struct{}
+	once    sync.Once
+}
+
+func (p *teParkSIDX) park() {
+	if g := p.env.gate.Load(); g != nil {
+		g.once.Do(func() { close(g.entered) })
+		<-g.release
+	}
+}
+
+func (p *teParkSIDX) QuerySync(ctx context.Context, req sidx.QueryRequest) ([]*sidx.QueryResponse, error) {
+	p.park()
+	return p.SIDX.QuerySync(ctx, req)
+}
+
+func (p *teParkSIDX) StreamingQuery(ctx context.Context, req sidx.QueryRequest) (<-chan *sidx.QueryResponse, <-chan error) {
+	p.park()
+	return p.SIDX.StreamingQuery(ctx, req)
+}
+
+// wrapSidx replaces the tables' secondary indexes by parking wrappers (idempotent).
+func (e *teEnv) wrapSidx() {
+	for _, tb := range e.tablesCopy() {
+		tb.tst.Lock()
+		for name, s := range tb.tst.sidxMap {
+			if _, ok := s.(*teParkSIDX); !ok {
+				tb.tst.sidxMap[name] = &teParkSIDX{SIDX: s, env: e}
+			}
+		}
+		tb.tst.Unlock()
+	}
+}
+
 type teTable struct {
 	tst     *tsTable
 	flushCh chan *flusherIntroduction
@@ -155,6 +200,7 @@ type teTable struct {
 }
 
 type teEnv struct {
+	gate   atomic.Pointer[teGate]
 	dir    string
 	db     storage.TSDB[*tsTable, option]
 	t      *trace
@@ -493,7 +539,7 @@ func (s teSpan) rendered() string {
 // ---- case and check ----
 
 type teOp struct {
-	Kind   string   `json:"kind"` // write | wide | boundarybig | flush | merge | query
+	Kind   string   `json:"kind"` // write | wide | boundarybig | flush | merge | query | racequery (query in flight while Pick is merged)
 	WideN  int      `json:"wide_n,omitempty"`
 	BigKiB int      `json:"big_kib,omitempty"`
 	Spans  []teSpan `json:"spans,omitempty"`
@@ -511,6 +557,7 @@ type teStats struct {
 	multiPart, vecUsed bool
 	boundary           bool
 	allWide            bool
+	raced, raceBlocked bool
 	cut                bool
 }
 
@@ -593,9 +640,68 @@ func runTraceEngine(x *verifkit.Ctx, c teCase) (teStats, error) {
 			if n > 0 {
 				st.merges++
 			}
-		case "query":
+		case "racequery", "query":
 			q := *op.Query
-			res, qerr := e.query(q)
+			var res []teOutTrace
+			var qerr error
+			if op.Kind == "racequery" {
+				// the query is in flight (parked inside its secondary-index lookup) while a merge of the picked parts is computed and
+				// handed to the introducer; then it resumes
+				e.wrapSidx()
+				g := &teGate{entered: make(chan struct{}), release: make(chan struct{})}
+				e.gate.Store(g)
+				type qres struct {
+					out []teOutTrace
+					err error
+				}
+				qch := make(chan qres, 1)
+				go func() {
+					out, err := e.query(q)
+					qch <- qres{out, err}
+				}()
+				var early *qres
+				select {
+				case <-g.entered:
+				case r := <-qch:
+					early = &r // the query needed no index lookup
+				case <-time.After(10 * time.Second):
+				}
+				mch := make(chan error, 1)
+				go func() {
+					_, merr := e.mergeFiles(op.Pick)
+					mch <- merr
+				}()
+				select {
+				case merr := <-mch:
+					mch <- merr
+				case <-time.After(40 * time.Millisecond):
+					st.raceBlocked = true // the publication waits for the query in flight
+				}
+				e.gate.Store(nil)
+				close(g.release)
+				if early != nil {
+					res, qerr = early.out, early.err
+				} else {
+					select {
+					case r := <-qch:
+						res, qerr = r.out, r.err
+					case <-time.After(30 * time.Second):
+						return st, fmt.Errorf("%s: the query in flight did not finish within 30 s after it was released", what)
+					}
+				}
+				select {
+				case merr := <-mch:
+					if merr != nil {
+						return st, fmt.Errorf("%s: merge failed: %v", what, merr)
+					}
+				case <-time.After(30 * time.Second):
+					return st, fmt.Errorf("%s: the merge publication did not finish within 30 s after the query was released", what)
+				}
+				st.merges++
+				st.raced = true
+			} else {
+				res, qerr = e.query(q)
+			}
 			if qerr != nil {
 				return st, fmt.Errorf("%s: query %+v failed: %v", what, q, qerr)
 			}
@@ -754,6 +860,19 @@ func genTeCase(t *rapid.T, _ *verifkit.KnownSet) teCase {
 			teOp{Kind: "merge", Pick: []int{0, 1, 2, 3, 4, 5, 6, 7}},
 			teOp{Kind: "query", Query: &teQuery{Boundary: true, Limit: 5, Vec: rapid.Bool().Draw(t, "bvec")}})
 	}
+	if rapid.IntRange(0, 2).Draw(t, "race") == 0 {
+		// at least two file parts, then a query that is in flight while they are merged
+		c.Ops = append(c.Ops, teOp{Kind: "flush"})
+		id++
+		rtr := rapid.IntRange(0, 7).Draw(t, "rtrace")
+		if _, ok := durOf[[2]int{rtr, 0}]; !ok {
+			durOf[[2]int{rtr, 0}] = int64(rapid.IntRange(0, 50).Draw(t, "rdur"))
+		}
+		c.Ops = append(c.Ops, teOp{Kind: "write", Spans: []teSpan{{Trace: rtr, ID: 800000 + id, Svc: 0, Dur: durOf[[2]int{rtr, 0}], T: 1}}}, teOp{Kind: "flush"})
+		rq := genTeQuery(t)
+		rq.Vec = rapid.IntRange(0, 3).Draw(t, "rvec") > 0
+		c.Ops = append(c.Ops, teOp{Kind: "racequery", Query: rq, Pick: []int{0, 1, 2, 3, 4, 5, 6, 7}})
+	}
 	nq := rapid.IntRange(1, 4).Draw(t, "queries")
 	for i := 0; i < nq; i++ {
 		c.Ops = append(c.Ops, teOp{Kind: "query", Query: genTeQuery(t)})
@@ -787,13 +906,15 @@ func genTeQuery(t *rapid.T) *teQuery {
 	return q
 }
 
-const teRule = "1..5 write batches of 1..15 spans (8 traces, 3 services, unique span ids, one duration 0..50 per trace and service, arbitrary arrival order, spans of a trace " +
+const teRule = "(in a third of the histories additionally a query in flight while a merge is published) 1..5 write batches of 1..15 spans (8 traces, 3 services, unique span ids, one duration 0..50 per trace and service, arbitrary arrival order, spans of a trace " +
 	"spread over batches) through the real trace write callback into a real TSDB (series index, sidx entries of the TREE rule [service_id, duration], " +
 	"span blocks), flush and merges of chosen parts (sidx included) in between; queries through the real planner by trace id (eq / in, limit) or " +
 	"ordered by the index rule for one service (asc/desc, limit/offset), through the row pipeline or the engine's columnar pipeline"
 
 func teLabels(x *verifkit.Ctx, st teStats) {
 	x.LabelIf(st.allWide, "every trace of a part with several primary-index granules looked up")
+	x.LabelIf(st.raced, "query in flight during a merge publication")
+	x.LabelIf(st.raceBlocked, "publication waited for the query in flight")
 	x.LabelIf(st.flushes > 0, "flush")
 	x.LabelIf(st.merges > 0, "merge")
 	x.LabelIf(st.byID > 0, "query by trace id")
@@ -847,4 +968,12 @@ func TestVerifTraceEngineC01(t *testing.T) {
 func TestVerifTraceEngineC03(t *testing.T) {
 	verifkit.Run(t, traceEngineSpec("C03", "trace_l1", "non-trivial = a trace returned after a merge",
 		func(st teStats) bool { return st.merges > 0 && st.byID > 0 }, map[string]float64{"merge": 0.1, "flush": 0.5}))
+}
+
+func TestVerifTraceEngineC05(t *testing.T) {
+	verifkit.Run(t, traceEngineSpec("C05", "trace_engine_race", "in a third of the histories a query (ordered or by id, row or columnar pipeline) is parked inside its "+
+		"secondary-index lookup while the file parts are merged and the merge is handed to the introducer, then resumes: it must still return exactly what the "+
+		"absolute oracle says (neither the merged part and its inputs, nor neither of them); non-trivial = such a query in flight",
+		func(st teStats) bool { return st.raced },
+		map[string]float64{"query in flight during a merge publication": 0.2}))
 }
